@@ -254,6 +254,25 @@ func (g *SG) stmt(nest int, inLoop, mayReturn bool) []Stmt {
 			&If{Cond: g.cond(0), Then: []Stmt{g.tr(), &Assign{Target: nv, Op: "=", E: g.smallInt(1)}}, HasElse: true, Else: []Stmt{g.tr(), &Assign{Target: nv, Op: ":=", E: ilit(77)}}},
 			g.tv(&Ref{nv}),
 		}
+	case 12:
+		// empty bodies: the loop header still runs (init, cond, step), an empty branch does nothing
+		g.Stats["empty_body"]++
+		g.loopVar++
+		v := fmt.Sprintf("i%d", g.loopVar)
+		n := int64(1 + r.Intn(4))
+		switch r.Intn(4) {
+		case 0:
+			return []Stmt{&For{Init: &Assign{Target: v, Op: "=", E: ilit(0)}, Cond: &Bin{Op: "<", L: &Ref{v}, R: ilit(n)},
+				Step: &Assign{Target: v, Op: "+=", E: &CallE{Name: "ti", Args: []Expr{ilit(g.id()), ilit(1), ilit(2), ilit(1), ilit(4)}}}, Body: []Stmt{}}, g.tv(&Ref{v})}
+		case 1:
+			return []Stmt{&If{Cond: g.cond(1), Then: []Stmt{}, HasElse: true, Else: []Stmt{g.tr()}}}
+		case 2:
+			return []Stmt{&If{Cond: g.cond(1), Then: []Stmt{g.tr()}, ElseIfs: []ElseIf{{Cond: g.cond(1), Body: []Stmt{}}}, HasElse: true, Else: []Stmt{}}}
+		default:
+			g.keyVar++
+			kv := fmt.Sprintf("k%d", g.keyVar)
+			return []Stmt{&ForRange{Key: kv, Cont: "VS", Body: []Stmt{}}, g.tv(&Ref{kv})}
+		}
 	case 11:
 		if inLoop && r.Intn(2) == 0 {
 			g.Stats["break"]++
